@@ -119,7 +119,7 @@ def _perturbed(v):
     return v
 
 
-def eval_formula(formula, cells=None, addr='Z9', overrides=None, sheets=None, decoy=True, pre_overrides=None, split=False):
+def eval_formula(formula, cells=None, addr='Z9', overrides=None, sheets=None, decoy=True, pre_overrides=None, split=False, entry_mode=None):
     """The value of `formula` written at `addr` of the first sheet.  The workbook also gets a DECOY sheet in front of it: the same cell
     texts (formulas included) at the same addresses over different constants.  Whatever the translation remembers about a formula text, an
     area text or an address must not leak from one sheet to the other."""
@@ -142,7 +142,9 @@ def eval_formula(formula, cells=None, addr='Z9', overrides=None, sheets=None, de
     import zlib
     c0, r0 = a1(addr)
     # every other formula (by a checksum of its text) is translated from the formula cell as ENTRY POINT instead of as a whole file
-    entry = Cell(shift, c0, r0) if zlib.crc32(formula.encode('utf8')) % 2 else None
+    # (`entry_mode` True / False forces one of the two; a case whose point is the ORDER in which a whole file is translated needs False)
+    use_entry = zlib.crc32(formula.encode('utf8')) % 2 if entry_mode is None else entry_mode
+    entry = Cell(shift, c0, r0) if use_entry else None
 
     def go():
         cl = build(sh, entry)
